@@ -17,6 +17,8 @@ var tokAlphabets = map[string][]rune{
 	"csv":        []rune("a,\";\n\r я"),
 	"mustache":   []rune("a{}#/!' я\U0001F600"),
 	"generic+cpp": []rune("a1/*-.\" \n\rя"),
+	"csv+latin1":  []rune("a\u00a6\u00ab\u00ff\n\r я"),
+	"csv+wide":    []rune("a\u2192;\u201d'\n я"),
 }
 
 func c04Lossy(toks []tokRec, text string) bool {
@@ -25,6 +27,17 @@ func c04Lossy(toks []tokRec, text string) bool {
 		sb.WriteString(t.val)
 	}
 	return sb.String() != text
+}
+
+// small context alphabets for the character sweep and the pumped inputs
+var tokContextAlphabets = map[string][]rune{
+	"generic":     []rune("a1-'< "),
+	"expression":  []rune("a1.'/ "),
+	"csv":         []rune("a,\"\n"),
+	"mustache":    []rune("a{}' "),
+	"generic+cpp": []rune("a/*1"),
+	"csv+latin1":  []rune("a\u00a6\u00ab\n"),
+	"csv+wide":    []rune("a\u2192\u201d\n"),
 }
 
 var c04Reused = map[string]tokenizers.ITokenizer{}
@@ -138,27 +151,53 @@ func init() {
 	fw.Register(&fw.Check{
 		ID:    "C04",
 		Level: "model_checking",
-		Rule: "every string up to the length bound over a per-tokenizer alphabet with one representative of each character class that selects a different state or look-ahead branch; all seven options off (plus a generic tokenizer configured with the C++ comment state, whose code the built-in tokenizers only partly reach); " +
+		Rule: "every string up to the length bound over a per-tokenizer alphabet with one representative of each character class that selects a different state or look-ahead branch; all seven options off; plus every one of 80 boundary characters (controls incl. NUL, each ASCII class edge, Latin-1, 0xFF/0x100, general punctuation, 0xFFFD..0xFFFF, first astral, U+10FFFF) in every context of up to 2+2 characters, and every pattern of <=3 characters repeated k times for 13 (thorough 24) sizes around powers of two up to 1000 (plus a generic tokenizer configured with the C++ comment state, whose code the built-in tokenizers only partly reach); " +
 			"oracle: token values concatenate to the input, tokens non-empty, single trailing Eof, TokenizeBuffer == NextToken loop; non-trivial = input on which some state pushed back at least one character (counted by the scanner wrapper)",
 		Assume: []string{"one representative per character class stands for the class", "termination decided by a deterministic scanner step budget of 64*(len+2)"},
 		Spaces: func(tier string) []fw.Space {
-			lens := map[string]int{"generic": 4, "expression": 4, "csv": 5, "mustache": 5, "generic+cpp": 5}
+			lens := map[string]int{"generic": 4, "expression": 4, "csv": 5, "mustache": 5, "generic+cpp": 5, "csv+latin1": 5, "csv+wide": 5}
 			if tier == "thorough" {
-				lens = map[string]int{"generic": 6, "expression": 6, "csv": 8, "mustache": 7, "generic+cpp": 7}
+				lens = map[string]int{"generic": 6, "expression": 6, "csv": 8, "mustache": 7, "generic+cpp": 7, "csv+latin1": 7, "csv+wide": 7}
 			}
 			sp := []fw.Space{}
-			for _, kind := range append(append([]string{}, tokKinds...), "generic+cpp") {
+			for _, kind := range append(append([]string{}, tokKindsExt...), "generic+cpp") {
 				kind := kind
 				al := tokAlphabets[kind]
 				sp = append(sp, fw.Space{Name: kind, N: countStrings(len(al), lens[kind]),
 					Run:  func(c *fw.Ctx, i int64) { c04Run(c, kind, stringByIndex(al, i)) },
 					Repr: func(i int64) string { return fmt.Sprintf("%s tokenizer, input %q", kind, stringByIndex(al, i)) }})
 			}
+			counts := pumpCountsSmall
+			if tier == "thorough" {
+				counts = pumpCounts
+			}
+			for _, kind := range append(append([]string{}, tokKindsExt...), "generic+cpp") {
+				kind := kind
+				ca := tokContextAlphabets[kind]
+				nctx := contextsCount(ca, 2)
+				sp = append(sp, fw.Space{Name: "charsweep-" + kind, N: nctx * int64(len(boundaryChars)),
+					Run: func(c *fw.Ctx, i int64) {
+						pre, suf := contextByIndex(ca, 2, i%nctx)
+						c04Run(c, kind, pre+string(boundaryChars[i/nctx])+suf)
+					},
+					Repr: func(i int64) string {
+						pre, suf := contextByIndex(ca, 2, i%nctx)
+						return fmt.Sprintf("%s tokenizer, input %q", kind, pre+string(boundaryChars[i/nctx])+suf)
+					}})
+				npat := countStrings(len(ca), 3) - 1
+				sp = append(sp, fw.Space{Name: "pumped-" + kind, N: npat * int64(len(counts)),
+					Run: func(c *fw.Ctx, i int64) {
+						c04Run(c, kind, pumped(stringByIndex(ca, 1+i%npat), counts[i/npat]))
+					},
+					Repr: func(i int64) string {
+						return fmt.Sprintf("%s tokenizer, input %q repeated %d times", kind, stringByIndex(ca, 1+i%npat), counts[i/npat])
+					}})
+			}
 			return sp
 		},
 		Bounds: func(tier string) string {
 			if tier == "thorough" {
-				return "generic: len<=6 over 19 chars; expression: len<=6 over 21; csv: len<=8 over 8; mustache: len<=7 over 10"
+				return "character sweep: 80 boundary characters in every context of <=2+2 characters; pumped: every pattern of <=3 characters repeated 2..1000 times (24 sizes); generic: len<=6 over 19 chars; expression: len<=6 over 21; csv: len<=8 over 8; mustache: len<=7 over 10"
 			}
 			return "generic/expression: len<=4; csv/mustache: len<=5"
 		},
